@@ -24,8 +24,11 @@ IsRat(q) == q[2] > 0
 
 \* Arguments are bound once (TLC re-evaluates an argument expression at every reference).
 Pick(S) == CHOOSE r \in S : TRUE
-RAdd(p0, q0) == Pick({ Norm(p[1] * q[2] + q[1] * p[2], p[2] * q[2]) : p \in {p0}, q \in {q0} })
-RSub(p0, q0) == Pick({ Norm(p[1] * q[2] - q[1] * p[2], p[2] * q[2]) : p \in {p0}, q \in {q0} })
+\* denominators are combined through their gcd: keeps intermediates small (32-bit integers)
+RAdd(p0, q0) == Pick({ LET g == GCD(p[2], q[2]) IN Norm(p[1] * (q[2] \div g) + q[1] * (p[2] \div g), (p[2] \div g) * q[2])
+                       : p \in {p0}, q \in {q0} })
+RSub(p0, q0) == Pick({ LET g == GCD(p[2], q[2]) IN Norm(p[1] * (q[2] \div g) - q[1] * (p[2] \div g), (p[2] \div g) * q[2])
+                       : p \in {p0}, q \in {q0} })
 RMul(p0, q0) ==     \* cross-cancel first: keeps intermediates small
   Pick({ LET g1 == GCD(Abs(p[1]), q[2])
              g2 == GCD(Abs(q[1]), p[2])
@@ -36,8 +39,8 @@ RMul(p0, q0) ==     \* cross-cancel first: keeps intermediates small
 RNeg(p0) == Pick({ <<-p[1], p[2]>> : p \in {p0} })
 RInv(p0) == Pick({ Norm(p[2], p[1]) : p \in {p0} })            \* p # 0
 RDiv(p, q) == RMul(p, RInv(q))         \* q # 0
-RLt(p0, q0) == \A p \in {p0}, q \in {q0} : p[1] * q[2] < q[1] * p[2]
-RLe(p0, q0) == \A p \in {p0}, q \in {q0} : p[1] * q[2] <= q[1] * p[2]
+RLt(p0, q0) == \A p \in {p0}, q \in {q0} : LET g == GCD(p[2], q[2]) IN p[1] * (q[2] \div g) < q[1] * (p[2] \div g)
+RLe(p0, q0) == \A p \in {p0}, q \in {q0} : LET g == GCD(p[2], q[2]) IN p[1] * (q[2] \div g) <= q[1] * (p[2] \div g)
 RSign(p0) == Pick({ IF p[1] > 0 THEN 1 ELSE IF p[1] < 0 THEN -1 ELSE 0 : p \in {p0} })
 RMin(p0, q0) == Pick({ IF RLe(p, q) THEN p ELSE q : p \in {p0}, q \in {q0} })
 RMax(p0, q0) == Pick({ IF RLe(p, q) THEN q ELSE p : p \in {p0}, q \in {q0} })
